@@ -7,9 +7,13 @@ import (
 	"regexp"
 	"strings"
 	"testing"
+	"time"
 
+	"github.com/hashicorp/serf/serf"
 	"pgregory.net/rapid"
 
+	"verif/internal/node"
+	"verif/internal/simnet"
 	"verif/internal/vkit"
 )
 
@@ -22,6 +26,7 @@ func genC10(t *rapid.T) snapCase {
 		MinCompact: rapid.SampledFrom([]int{0, 64, 200, 1000, 128 * 1024}).Draw(t, "mincompact"),
 		RealFS:     rapid.IntRange(0, 5).Draw(t, "fs") == 0,
 	}
+	c.SerfLayer = rapid.IntRange(0, 3).Draw(t, "serf-layer") == 0
 	c.Names = genNames(t, rapid.IntRange(0, 30).Draw(t, "allow-newline") == 0)
 	c.Ops = genOps(t, 60, map[int]int{opJoin: 6, opLeave: 2, opFailed: 2, opUpdate: 1, opReap: 1, opUser: 2,
 		opQuery: 2, opWitness: 2, opTick: 1, opAdvance: 1, opReopen: 1})
@@ -119,6 +124,73 @@ func compareState(x *vkit.Ctx, what string, rec recovered, alive map[string]stri
 	return true
 }
 
+// serfLayer starts a real Serf node on the snapshot the history left behind
+// (same in-memory file system) and observes, through the capture transport,
+// whom it tries to re-join, and through Stats() what its clocks restored to.
+func serfLayer(r *snapRun, x *vkit.Ctx) bool {
+	r.closeSnap()
+	nw := simnet.New(1)
+	const self = "restarted-self"
+	n, err := node.New(nw, node.Opts{Name: self, Quiet: true, Mutate: func(sc *serf.Config) {
+		sc.SnapshotPath = r.path
+	}})
+	if err != nil {
+		x.Violationf("serf-create-on-snapshot-failed", "serf.Create on the snapshot failed: %v", err)
+		return false
+	}
+	defer n.Stop()
+	want := map[string]string{}
+	for name, addr := range r.alive {
+		if name != self {
+			want[name] = addr
+		}
+	}
+	got := map[string]string{}
+	dl := time.Now().Add(5 * time.Second)
+	for {
+		for _, d := range nw.Dials() {
+			got[d.ToName] = d.To
+		}
+		if len(got) >= len(want) || time.Now().After(dl) {
+			break
+		}
+		time.Sleep(200 * time.Microsecond)
+	}
+	time.Sleep(2 * time.Millisecond)
+	for _, d := range nw.Dials() {
+		got[d.ToName] = d.To
+	}
+	if aliveKey(got) != aliveKey(want) {
+		sig := "rejoin-dials-differ"
+		for name := range want {
+			if _, ok := got[name]; !ok && strings.Contains(name, "/") {
+				// "name/addr" is how Serf hands the member to memberlist.Join, which
+				// splits at the first slash
+				sig = "name-with-slash-not-rejoined"
+			}
+		}
+		x.Violationf(sig, "a node restarted on the snapshot dialled %s, the model's last known alive members are %s", aliveKey(got), aliveKey(want))
+		return false
+	}
+	st := n.Serf.Stats()
+	var mt, et, qt uint64
+	fmt.Sscan(st["member_time"], &mt)
+	fmt.Sscan(st["event_time"], &et)
+	fmt.Sscan(st["query_time"], &qt)
+	if mt < uint64(r.lc.Time()) || et < r.maxEvent+1 || qt < r.maxQuery+1 {
+		x.Violationf("serf-clocks-not-restored", "restarted node clocks (member %d, event %d, query %d) are not past the recorded values (%d, %d, %d)",
+			mt, et, qt, uint64(r.lc.Time())-1, r.maxEvent, r.maxQuery)
+		return false
+	}
+	x.Label("serf-layer")
+	// re-open for the callers that expect an open snapshotter
+	if err := r.openSnap(); err != nil {
+		x.Inconclusive("reopen after serf layer: " + err.Error())
+		return false
+	}
+	return true
+}
+
 func bodyC10(c snapCase, x *vkit.Ctx) {
 	nl := hasNewlineName(&c)
 	if nl {
@@ -134,6 +206,13 @@ func bodyC10(c snapCase, x *vkit.Ctx) {
 	defer r.cleanup()
 	if !compareState(x, "after restart", rec, r.alive, uint64(r.lc.Time())-1, r.maxEvent, r.maxQuery, nl) {
 		return
+	}
+	// Serf-level layer (a quarter of the cases): a node created on this snapshot
+	// tries to re-join exactly the recorded members and restores its clocks
+	if c.SerfLayer && !c.RealFS && !nl {
+		if !serfLayer(r, x) {
+			return
+		}
 	}
 	// metamorphic twin: the same history without any compaction restores the same state
 	if c.MinCompact < 128*1024 && !c.RealFS {
